@@ -3,35 +3,39 @@
   in-situ variant + derandomisation for randomised blocks).
 
   Reference (own, in Model/Ibwt.lean second half, namespace `Spec.Ibwt`; W5's
-  Spec was not available): `ibwt L idx` = follow the successor vector obtained
-  by STABLY sorting the positions of the last column `L`; `ibwtNaive` =
-  row `idx` of the sorted rotation matrix rebuilt by n rounds of
-  "prepend `L`, sort"; `derand` = bzip2's (rNToGo, rTPos) automaton.
+  Spec was not available when it was written — Props/C05/Stages.lean proves it
+  equal to `Spec.Bzip2.ibwt` / `Spec.Bzip2.derand`): `ibwt L idx` = follow the
+  successor vector obtained by STABLY sorting the positions of the last column
+  `L`; `ibwtNaive` = row `idx` of the sorted rotation matrix rebuilt by n
+  rounds of "prepend `L`, sort"; `derand` = bzip2's (rNToGo, rTPos) automaton.
 
-  Status.  The intended theorem is `IbwtSound` below; it is STATED, and
-  proved here only in part:
-  * `ibwt_link_sound_partial` (all blocks, not randomised): the list that
-    `decode()` builds is a successor-vector structure — slot `pos L i` carries
-    byte `L[pos L i]` and pointer `i`, where `pos L` is injective, stays below
-    `n` and orders the indices by (byte, index), i.e. it is the rank in the
-    stable sort — and the bytes `emit()` reads are the textbook traversal
-    `follow` of that vector from `idx`.
-    MISSING for `IbwtSound`: (1) that `Spec.Ibwt.succVec` (insertion sort)
-    realises the same rank function (`succVec L`[pos L i] = i) together with
-    surjectivity of `pos L` onto `[0,n)` (pigeonhole); (2) the randomised
-    path: `bsearch` over the advanced `ftab` returns the first-column byte of a
-    slot, `derandLoop` flips exactly the positions of `Spec.Ibwt.derand`, and
-    the re-formed list is traversed in index order.
-  * TESTS (evaluated by the kernel, Lemmas/IbwtTests.lean): `IbwtSound`'s
-    equation on every last column of length ≤ 3 over three symbols and of
-    length 4, 5 over two symbols, for every primary index, against both
-    reference forms; two words; the derandomisation loop against the
-    reference automaton on 2000 bytes; rand path = plain path on small blocks.
+  Status.  `IbwtSound` is PROVED for all blocks (`ibwt_sound_all`):
+  * `ibwt_sound` (not randomised): the bytes `emit()` reads after `decode()`
+    are `Spec.Ibwt.ibwt L idx`.  Ingredients: `ibwt_link_sound_partial` (the
+    list is a successor-vector structure, W12) + `pos_onto` (the rank function
+    `pos L` is onto `[0,n)`, and `Spec.Ibwt.succVec` — insertion sort —
+    realises it: Lemmas/IbwtSort.lean).
+  * `ibwt_sound_rand` (randomised): … are `derand (ibwt L idx)`.
+    Ingredients (Lemmas/IbwtRand.lean, Lemmas/IbwtDerand.lean):
+    `bsearch_sound` (the 8-step binary search over the advanced `ftab` returns
+    the first-column byte of a slot), `insitu_spec` (pointers kept, byte m :=
+    bsearch(T^m idx)), `derand_loop_sound` (the index-jumping loop over
+    `rand_table` from `RAND_THRESH` = the reference automaton, every length),
+    `walk_reform` (the re-formed list is read in index order from
+    `rle_index = 0`).
+  * `rle_index_bound_rand`: on the randomised path the traversal dereferences
+    exactly the pointers `0 … n-1` (C08; complements
+    `Props.C08.rle_index_bound_partial`, which covers the other path).
+  * TESTS (evaluated by the kernel, Lemmas/IbwtTests.lean) are kept:
+    `ibwt_sound_tests` additionally ties `ibwt` to the naive sorted-matrix
+    form `ibwtNaive` on small inputs (that equation is NOT proved in general).
   The per-run campaign (checks/w12_emit.py) compares the real `decode()`, the
   model and the reference on blocks of sizes around 617/1337 and above.
 -/
 import LbzVerif.Lemmas.Ibwt
 import LbzVerif.Lemmas.IbwtTests
+import LbzVerif.Lemmas.IbwtSort
+import LbzVerif.Lemmas.IbwtRand
 
 namespace LbzVerif.Props.C05
 
@@ -39,13 +43,13 @@ open LbzVerif
 open LbzVerif.Model.Ibwt
 open LbzVerif.Lemmas.Ibwt
 
-/-- The intended full-strength statement (NOT proved in general; see header). -/
+/-- The full-strength statement (proved below: `ibwt_sound_all`). -/
 def IbwtSound : Prop :=
   ∀ (L : List UInt8) (idx : Nat), idx < L.length →
     nodes false idx L = Spec.Ibwt.ibwt L idx ∧
     nodes true idx L = Spec.Ibwt.derand Gen.randTable (Spec.Ibwt.ibwt L idx)
 
-/-- **ibwt_link_sound_partial** (see header for what is missing). -/
+/-- **ibwt_link_sound_partial** (W12's structural part; completed by `ibwt_sound`). -/
 theorem ibwt_link_sound_partial (L : List UInt8) (idx : Nat) (hidx : idx < L.length) :
     (∀ i, i < L.length → pos L i < L.length) ∧
     (∀ i j, i < L.length → j < L.length → pos L i = pos L j → i = j) ∧
@@ -72,5 +76,91 @@ theorem ibwt_sound_tests :
     (derandLoop 2000 2000 0 Gen.RAND_THRESH (List.replicate 2000 0)).map (UInt8.ofNat ·) =
       Spec.Ibwt.derand Gen.randTable (List.replicate 2000 0) :=
   ⟨Lemmas.IbwtTests.test_small_alphabet, Lemmas.IbwtTests.test_derand⟩
+
+/-- **pos_onto.**  The rank function is onto `[0,n)`, and the reference's
+successor vector (stable insertion sort of the positions) is its inverse. -/
+theorem pos_onto (L : List UInt8) :
+    (∀ q, q < L.length → ∃ i, i < L.length ∧ pos L i = q) ∧
+    (∀ q, q < L.length → pos L ((Spec.Ibwt.succVec L).getD q 0) = q) ∧
+    (∀ i, i < L.length → (Spec.Ibwt.succVec L).getD (pos L i) 0 = i) :=
+  ⟨Lemmas.IbwtSort.pos_surj L, Lemmas.IbwtSort.pos_succVec L, Lemmas.IbwtSort.succVec_pos L⟩
+
+example : Spec.Ibwt.succVec [110, 110, 98, 97, 97, 97] = [3, 4, 5, 2, 0, 1] ∧
+    (List.range 6).map (pos [110, 110, 98, 97, 97, 97]) = [4, 5, 3, 0, 1, 2] := by
+  decide +kernel
+
+/-- **ibwt_sound** (non-randomised path, every block, every primary index
+below the block size): the bytes `emit()` reads after `decode()` are the
+textbook inverse BWT of `(L, idx)`. -/
+theorem ibwt_sound (L : List UInt8) (idx : Nat) (hidx : idx < L.length) :
+    nodes false idx L = Spec.Ibwt.ibwt L idx :=
+  Lemmas.IbwtSort.nodes_false_eq_ibwt L idx hidx
+
+example : nodes false 3 [110, 110, 98, 97, 97, 97] = Spec.Ibwt.ibwt [110, 110, 98, 97, 97, 97] 3 ∧
+    Spec.Ibwt.ibwt [110, 110, 98, 97, 97, 97] 3 = [98, 97, 110, 97, 110, 97] :=
+  ⟨ibwt_sound _ 3 (by decide), by decide +kernel⟩
+
+/-- **bsearch_sound.**  The eight-step binary search returns `k ≤ 255` with
+`ftab[k-1] ≤ j < ftab[k]` (reading `ftab[-1]` as 0 and `ftab[255]` as +∞), for
+any table; over the table `decode()` has at that point (`ftab[b]` = number of
+bytes `≤ b`) and a slot `j = pos L i` it returns `L[i]`, the first-column byte
+of that slot. -/
+theorem bsearch_sound (L : List UInt8) (F : List Nat) (j : Nat) :
+    (bsearch F j ≤ 255 ∧ (bsearch F j = 0 ∨ F.getD (bsearch F j - 1) 0 ≤ j) ∧
+      (bsearch F j = 255 ∨ j < F.getD (bsearch F j) 0)) ∧
+    ((∀ b, b < 256 → F.getD b 0 = cntLt L (b + 1)) →
+      ∀ i, i < L.length → bsearch F (pos L i) = byteAt L i) ∧
+    (∀ b, b < 256 →
+      (link (L.map (·.toNat)) (cumulate 0 (counts L)) L.length).2.getD b 0 = cntLt L (b + 1)) :=
+  ⟨Lemmas.IbwtRand.bsearch_spec F j, fun hF i hi => Lemmas.IbwtRand.bsearch_pos L F hF i hi,
+    (Lemmas.IbwtRand.link_state L).2.2⟩
+
+-- ftab after `link` on "nnbaaa": a→3, b→4, n→6; slots 0-2 ↦ 'a', 3 ↦ 'b', 4-5 ↦ 'n'
+example :
+    (List.range 6).map (bsearch (link ([110, 110, 98, 97, 97, 97].map (·.toNat))
+      (cumulate 0 (counts [110, 110, 98, 97, 97, 97])) 6).2) = [97, 97, 97, 98, 110, 110] := by
+  decide +kernel
+
+/-- **derand_loop_sound.**  For every cell array: the bytes after
+`i = 0, j = RAND_THRESH; while (j < n) { tt[j] ^= 1; i = (i+1) & 0x1FF;
+j += rand_table[i]; }` are the reference derandomisation (the `rNToGo` /
+`rTPos` automaton over the same table) of the bytes before. -/
+theorem derand_loop_sound (tt : List Nat) :
+    (derandLoop tt.length tt.length 0 Gen.RAND_THRESH tt).map Lemmas.IbwtDerand.low =
+      Spec.Ibwt.derand Gen.randTable (tt.map Lemmas.IbwtDerand.low) :=
+  Lemmas.IbwtDerand.derandLoop_low tt
+
+/-- **ibwt_sound_rand** (randomised path, every block): the bytes `emit()`
+reads after `decode()` are the reference derandomisation of the textbook
+inverse BWT of `(L, idx)`. -/
+theorem ibwt_sound_rand (L : List UInt8) (idx : Nat) (hidx : idx < L.length) :
+    nodes true idx L = Spec.Ibwt.derand Gen.randTable (Spec.Ibwt.ibwt L idx) :=
+  Lemmas.IbwtRand.nodes_true_eq L idx hidx
+
+-- a block long enough for the first flip (position 617 = RAND_THRESH)
+example : nodes true 0 (List.replicate 700 5) =
+      Spec.Ibwt.derand Gen.randTable (Spec.Ibwt.ibwt (List.replicate 700 5) 0) ∧
+    (nodes true 0 (List.replicate 700 5)).getD 617 0 = 4 ∧
+    (nodes true 0 (List.replicate 700 5)).getD 616 0 = 5 ∧
+    (nodes false 0 (List.replicate 700 5)).getD 617 0 = 5 :=
+  ⟨ibwt_sound_rand _ 0 (by decide), by decide +kernel⟩
+
+/-- **ibwt_sound_all**: `IbwtSound` holds. -/
+theorem ibwt_sound_all : IbwtSound :=
+  fun L idx h => ⟨ibwt_sound L idx h, ibwt_sound_rand L idx h⟩
+
+/-- **rle_index_bound_rand** (C08, randomised path): `rle_index = 0` and the
+traversal `emit()` performs dereferences the pointers `0 … n-1` only (the
+pointer `n` stored in the last cell is never followed). -/
+theorem rle_index_bound_rand (L : List UInt8) (idx : Nat) (hn : 0 < L.length) :
+    let d := decode true idx L (counts L)
+    d.rleIndex = 0 ∧ walkMaxPtr d.tt L.length d.rleIndex < L.length := by
+  obtain ⟨h0, h1⟩ := Lemmas.IbwtRand.decode_walk_bound_rand L idx hn
+  exact ⟨h0, by rw [h1]; omega⟩
+
+example :
+    (let d := decode true 3 [110, 110, 98, 97, 97, 97] (counts [110, 110, 98, 97, 97, 97]);
+     walkMaxPtr d.tt 6 d.rleIndex = 5 ∧ d.tt.map (· >>> 8) = [1, 2, 3, 4, 5, 6]) := by
+  decide +kernel
 
 end LbzVerif.Props.C05
